@@ -30,16 +30,9 @@ affected API, not that a listed property is broken.
 from __future__ import annotations
 
 import argparse
-import concurrent.futures as cf
-import hashlib
 import json
 import os
-import re
-import shutil
-import subprocess
 import sys
-import tempfile
-import threading
 import time
 
 HERE = os.path.dirname(os.path.abspath(__file__))
@@ -47,8 +40,7 @@ sys.path.insert(0, HERE)
 
 import static_audit  # noqa: E402
 
-PY = "/venv/bin/python"
-WORKER = os.path.join(HERE, "worker.py")
+from engine import Explorer  # noqa: E402
 
 # which not-applicable verdicts rest on which part of the API (coarse; for the report only)
 API_TO_PROPERTIES = [
@@ -86,556 +78,106 @@ def properties_for(exports):
     return sorted(out)
 
 
-# --------------------------------------------------------------------------------------
-# worker management
 
-
-def worker_env(repo: str, *, x64: bool, hashseed: str, single_thread: bool) -> dict:
-    env = {k: v for k, v in os.environ.items() if k not in ("PYTHONHASHSEED", "XLA_FLAGS", "JAX_ENABLE_X64", "PYTHONPATH")}
-    env["PYTHONPATH"] = repo  # the audited tree wins over any installed copy
-    env["PREMISE_AUDIT_EXPECT_ROOT"] = os.path.join(repo, "exponax")
-    env["JAX_ENABLE_X64"] = "1" if x64 else "0"
-    env["JAX_PLATFORMS"] = "cpu"
-    env["PYTHONDONTWRITEBYTECODE"] = "1"
-    if hashseed != "random":
-        env["PYTHONHASHSEED"] = hashseed
-    if single_thread:
-        env["XLA_FLAGS"] = "--xla_cpu_multi_thread_eigen=false intra_op_parallelism_threads=1"
-    return env
-
-
-_SLOT_LOCK = threading.Lock()
-_FREE_SLOTS: list[int] = []
-
-
-def run_worker(mode: str, spec: dict, env: dict, workdir: str, tag: str, timeout: float) -> dict:
-    """Runs one worker process pinned to a free CPU slot (1 or 2 cores, alternating)."""
-    with _SLOT_LOCK:
-        slot = _FREE_SLOTS.pop() if _FREE_SLOTS else None
-    try:
-        if slot is not None:
-            ncpu = os.cpu_count() or 1
-            cpus = [slot % ncpu] if slot % 2 == 0 else [slot % ncpu, (slot + 1) % ncpu]
-            env = dict(env, PREMISE_AUDIT_AFFINITY=",".join(map(str, cpus)))
-        return _run_worker(mode, spec, env, workdir, tag, timeout)
-    finally:
-        if slot is not None:
-            with _SLOT_LOCK:
-                _FREE_SLOTS.append(slot)
-
-
-def _run_worker(mode: str, spec: dict, env: dict, workdir: str, tag: str, timeout: float) -> dict:
-    inp = os.path.join(workdir, f"{tag}.in.json")
-    outp = os.path.join(workdir, f"{tag}.out.json")
-    with open(inp, "w") as f:
-        json.dump(spec, f)
+def run_audit(args) -> int:
     t0 = time.monotonic()
+    changed: list[str] = []
+    report: dict = {"repo": os.path.abspath(args.repo), "tier": args.tier, "seed_base": args.seed_base}
+
+    # leg 1: static
+    static = static_audit.audit_package(os.path.join(args.repo, "exponax"))
+    report["static"] = static
+    for f in static["findings"]:
+        changed.append(f"static {f['rule']} at exponax/{f['where']}: {f['detail']}")
+
+    ex = Explorer(
+        repo=args.repo, jobs=args.jobs, seeds=args.seeds, seed_base=args.seed_base, isolate_reference=args.tier == "thorough",
+        replay_sample=args.replay_sample, cover=args.cover, cold_start=args.cold_start, run_wall_cap=args.run_wall_cap,
+        worker_timeout=args.worker_timeout, min_budget=args.min_budget, replay_dir=args.replay_dir, label="premise",
+    )  # fmt: skip
     try:
-        p = subprocess.run([PY, WORKER, mode, inp, outp], env=env, stdout=subprocess.PIPE, stderr=subprocess.PIPE, timeout=timeout, cwd=workdir)
-    except subprocess.TimeoutExpired as e:
-        return {"worker_error": f"timeout after {timeout}s", "stderr": (e.stderr or b"")[-3000:].decode("utf8", "replace"), "tag": tag}
-    if p.returncode != 0 or not os.path.exists(outp):
-        return {"worker_error": f"exit {p.returncode}", "stderr": p.stderr[-3000:].decode("utf8", "replace"), "tag": tag}
-    res = json.load(open(outp))
-    res["wall"] = time.monotonic() - t0
-    res["tag"] = tag
-    return res
+        if args.leg in ("all", "dynamic") and ex.load_catalogue():
+            for g in ex.report["catalogue"]["exports_uncovered"]:
+                changed.append(f"coverage new public export not exercised by the audit workload: {g}")
+            ex.build_reference()
+            for sess, ks in ex.report["reference"]["ops_raising_in_reference"].items():
+                for k in ks:
+                    ex.errors.append(f"reference op raised ({sess}): {k}")
+            if not ex.errors:
+                good = ex.simulate()
+                # leg 2: seams
+                for k, v in sorted(ex.seam_pkg_hits.items()):
+                    changed.append(f"seam package code touched an ambient seam: {k} ({v}x)")
+                for d in ex.diverged:
+                    ex.errors.append(f"replay divergence: seed {d['seed']} gave different event logs under {d['first']} and {d['second']}")
+                # leg 3: any bitwise difference from the isolated reference changes the premise
+                bad = [r for r in good if r["mismatches"]]
+                if bad:
+                    affected = sorted({m["op"] for r in bad for m in r["mismatches"]})
+                    exports = sorted({e for k in affected for e in ex.ops[k]["exports"]})
+                    first = sorted(bad, key=lambda r: (sum(len(t) for t in r["plan"]["threads"]), r["seed"]))[0]
+                    plan, best, attempts, reproduced = ex.minimise(first, "any")
+                    path = ex.write_replay(first, plan, best, attempts, reproduced)
+                    worst = "beyond rounding" if any(m["severity"] == "beyond" for r in bad for m in r["mismatches"]) else "rounding-level only"
+                    report["mismatch"] = {
+                        "runs": len(bad), "seeds": sorted(r["seed"] for r in bad)[:50], "operations": affected[:50], "exports": exports,
+                        "verdicts_to_rederive": properties_for(exports), "replay_file": path, "worst": worst,
+                        "minimised_ops": sum(len(t) for t in plan.threads), "minimised_from_ops": sum(len(t) for t in first["plan"]["threads"]),
+                    }  # fmt: skip
+                    changed.append(
+                        f"simulate results depend on history/schedule/ambient state ({worst}): {len(affected)} operation(s) differ from their isolated reference in {len(bad)} run(s), "
+                        f"e.g. {affected[0]}; API {exports[:4]}; verdicts to re-derive {properties_for(exports)}; seed={first['seed']} replay={path}"
+                    )
+        report.update(ex.report)
+        errors = ex.errors
+    finally:
+        ex.cleanup()
+    report["wall_s"] = round(time.monotonic() - t0, 1)
+    report["premise_changed"] = changed
+    report["audit_errors"] = errors
+    report_path = args.report or os.path.join(HERE, "out", f"report-{args.tier}.json")
+    os.makedirs(os.path.dirname(report_path), exist_ok=True)
+    with open(report_path, "w") as f:
+        json.dump(report, f, indent=1, sort_keys=True)
+    sim = report.get("simulation", {})
+    print(
+        f"premise-audit tier={args.tier} static_findings={len(static['findings'])} ops={report.get('catalogue', {}).get('operations_selected')} "
+        f"runs={sim.get('runs')} distinct_event_logs={sim.get('distinct_event_logs')} line_events={sim.get('reach', {}).get('line_events')} "
+        f"line_switches={sim.get('reach', {}).get('line_switches')} faults={sim.get('faults_injected')} retries={sim.get('reach', {}).get('retries')} "
+        f"seam_hits_from_package={sum(report.get('seams', {}).get('hits_from_package', {}).values())} "
+        f"determinism={sim.get('determinism_reruns')}re-runs/{len(sim.get('determinism_divergences', []))}divergent wall={report['wall_s']}s"
+    )
+    for e in errors:
+        print("AUDIT-ERROR " + e.replace("\n", "\n    "))
+    for c in changed:
+        print("PREMISE-CHANGED " + c)
+    if changed:
+        return 3
+    if errors:
+        return 2
+    print("PREMISE-HOLDS no schedule/clock/I-O/entropy/shared-state surface found; every simulated run reproduced the isolated reference bit for bit")
+    return 0
 
 
-def shape_family(key: str) -> str:
-    """Operations with the same (D, N) share most XLA programs; keeping them in one process avoids recompiling."""
-    m = re.search(r"D=(\d)(?:,N=(\d+))?", key)
-    return f"D{m.group(1)}N{m.group(2) or ''}" if m else "misc"
-
-
-def contiguous_chunks(items, costs, n):
-    """Split `items` (already ordered) into <= n contiguous chunks of roughly equal cost."""
-    total = sum(costs[k] for k in items)
-    chunks, cur, acc = [], [], 0.0
-    for k in items:
-        cur.append(k)
-        acc += costs[k]
-        if acc >= total / n and len(chunks) < n - 1:
-            chunks.append(cur)
-            cur, acc = [], 0.0
-    if cur:
-        chunks.append(cur)
-    return chunks
-
-
-def balanced_chunks(items, costs, n):
-    chunks = [[] for _ in range(n)]
-    load = [0] * n
-    for it in sorted(items, key=lambda k: -costs[k]):
-        i = load.index(min(load))
-        chunks[i].append(it)
-        load[i] += costs[it]
-    return [c for c in chunks if c]
-
-
-# --------------------------------------------------------------------------------------
-
-
-class Audit:
-    def __init__(self, args):
-        self.args = args
-        self.repo = os.path.abspath(args.repo)
-        self.jobs = args.jobs
-        self.workdir = tempfile.mkdtemp(prefix="premise-audit-")
-        _FREE_SLOTS[:] = list(range(self.jobs))
-        self.changed: list[str] = []  # PREMISE-CHANGED lines
-        self.errors: list[str] = []  # AUDIT-ERROR lines
-        self.report: dict = {"repo": self.repo, "tier": args.tier, "seed_base": args.seed_base}
-
-    def cleanup(self):
-        shutil.rmtree(self.workdir, ignore_errors=True)
-
-    # ---------------------------------------------------------------- leg 1
-    def leg_static(self):
-        res = static_audit.audit_package(os.path.join(self.repo, "exponax"))
-        self.report["static"] = res
-        for f in res["findings"]:
-            self.changed.append(f"static {f['rule']} at exponax/{f['where']}: {f['detail']}")
-
-    # ---------------------------------------------------------------- catalogue
-    def load_catalogue(self):
-        env = worker_env(self.repo, x64=False, hashseed="0", single_thread=False)
-        res = run_worker("list", {}, env, self.workdir, "list", 300)
-        if "worker_error" in res:
-            self.errors.append(f"catalogue: {res['worker_error']}\n{res.get('stderr', '')}")
-            return False
-        self.ops = res["ops"]
-        self.keys = list(self.ops)
-        self.groups = {}
-        for k, o in self.ops.items():
-            self.groups.setdefault(o["group"], []).append(k)
-        self.report["catalogue"] = {
-            "operations": len(self.keys),
-            "configurations": len(self.groups),
-            "public_exports": len(res["exports"]),
-            "exports_skipped": res["skipped_exports"],
-            "exports_uncovered": res["gaps"],
-            "package_root": res["package_root"],
-            "session": res["session"],
-        }
-        for g in res["gaps"]:
-            self.changed.append(f"coverage new public export not exercised by the audit workload: {g}")
-        return True
-
-    # ---------------------------------------------------------------- reference tables
-    def leg_reference(self):
-        costs = {k: o["cost"] for k, o in self.ops.items()}
-        if self.args.tier == "thorough":
-            # one fresh interpreter per configuration group: the most isolated reference available
-            by_group = [sorted(v) for _, v in sorted(self.groups.items())]
-            gcost = {i: sum(costs[k] for k in g) for i, g in enumerate(by_group)}
-            # groups are packed only to bound process count; each chunk = few unrelated groups
-            n_chunks = max(self.jobs * 4, 1)
-            packs = balanced_chunks(list(range(len(by_group))), gcost, n_chunks)
-            chunks = [[k for gi in pack for k in by_group[gi]] for pack in packs]
-        else:
-            chunks = contiguous_chunks(sorted(self.keys, key=lambda k: (shape_family(k), k)), costs, self.jobs)
-        self.reference = {False: {}, True: {}}
-        self.ref_chunks = chunks
-        jobs = []
-        with cf.ThreadPoolExecutor(self.jobs) as ex:
-            for x64 in (False, True):
-                env = worker_env(self.repo, x64=x64, hashseed="0", single_thread=False)
-                for i, ch in enumerate(chunks):
-                    jobs.append((x64, ex.submit(run_worker, "ref", {"ops": ch}, env, self.workdir, f"ref-{int(x64)}-{i}", 1200)))
-            t0 = time.monotonic()
-            for x64, fut in jobs:
-                res = fut.result()
-                if "worker_error" in res:
-                    self.errors.append(f"reference worker {res['tag']}: {res['worker_error']}\n{res.get('stderr', '')}")
-                    continue
-                want = "float64" if x64 else "float32"
-                if res["session"]["default_float"] != want:
-                    self.errors.append(f"reference session dtype {res['session']['default_float']} != {want}")
-                self.reference[x64].update(res["table"])
-        raised = {x: [k for k, v in t.items() if v[0] != "ok"] for x, t in self.reference.items()}
-        self.report["reference"] = {
-            "processes": len(jobs),
-            "isolation": "per configuration group" if self.args.tier == "thorough" else f"{len(chunks)} balanced chunks",
-            "ops_float32": len(self.reference[False]),
-            "ops_float64": len(self.reference[True]),
-            "ops_raising_in_reference": raised,
-            "wall_s": round(time.monotonic() - t0, 1),
-        }
-        for x, ks in raised.items():
-            for k in ks:
-                self.errors.append(f"reference op raised ({'x64' if x else 'f32'}): {k} -> {self.reference[x][k][1]}")
-
-    # ---------------------------------------------------------------- simulation
-    def make_plans(self, n_seeds):
-        from sim import make_plan
-
-        seeds = [self.args.seed_base + i for i in range(n_seeds)]
-        # coverage: every operation of the catalogue is mandatory in exactly one plan of each session
-        plans = {False: [], True: []}
-        for si, x64 in enumerate((False, True)):
-            mine = seeds[si::2]
-            if not mine:
-                continue
-            order = sorted(self.keys, key=lambda k: (shape_family(k), hashlib.sha256(f"{self.args.seed_base}-{x64}-{k}".encode()).hexdigest()))
-            slices = contiguous_chunks(order, {k: 1 for k in order}, len(mine))
-            slices += [[] for _ in range(len(mine) - len(slices))]
-            for s, mand in zip(mine, slices):
-                plans[x64].append(make_plan(s, self.keys, self.groups, mandatory=mand if self.args.cover else None))
-        return plans
-
-    def worker_variants(self, x64):
-        out = []
-        for hs in ("0", "1", "4242", "random"):
-            for st in (False, True):
-                out.append(dict(x64=x64, hashseed=hs, single_thread=st))
-        return out
-
-    def run_plans(self, plans_by_session, label, shift=0, record_trace=False):
-        """Distribute plans over worker processes; returns list of run records (with 'variant')."""
-        tasks = []
-        for x64, plans in plans_by_session.items():
-            if not plans:
-                continue
-            variants = self.worker_variants(x64)
-            n_workers = max(1, min(len(plans), self.jobs // 2 if len(plans_by_session) > 1 else self.jobs))
-            pcost = {id(p): sum(self.ops[k]["cost"] for t in p.threads for k in t) for p in plans}
-            buckets = [[p for p in plans if id(p) in set(ch)] for ch in contiguous_chunks([id(p) for p in plans], pcost, n_workers)]
-            for wi, b in enumerate(buckets):
-                if not b:
-                    continue
-                var = variants[(wi + shift) % len(variants)]
-                needed = {k for p in b for t in p.threads for k in t}
-                spec = {
-                    "plans": [p.to_json() for p in b],
-                    "reference": {k: self.reference[x64][k] for k in needed if k in self.reference[x64]},
-                    "wall_cap": self.args.run_wall_cap,
-                    "record_trace": record_trace,
-                    "cold_start": self.args.cold_start,
-                }
-                tasks.append((var, spec, f"{label}-{int(x64)}-{wi}"))
-        runs = []
-        seam_totals: dict = {}
-        with cf.ThreadPoolExecutor(self.jobs) as ex:
-            futs = [(var, ex.submit(run_worker, "sim", spec, worker_env(self.repo, **var), self.workdir, tag, self.args.worker_timeout)) for var, spec, tag in tasks]
-            for var, fut in futs:
-                res = fut.result()
-                if "worker_error" in res:
-                    self.errors.append(f"simulation worker {res['tag']}: {res['worker_error']}\n{res.get('stderr', '')[-1500:]}")
-                    continue
-                for r in res["runs"]:
-                    r["variant"] = var
-                    runs.append(r)
-                for k, v in res["seams"]["hits_total"].items():
-                    seam_totals[k] = seam_totals.get(k, 0) + v
-                for k, v in res["seams"]["hits_from_package"].items():
-                    self.seam_pkg_hits[k] = self.seam_pkg_hits.get(k, 0) + v
-        for k, v in seam_totals.items():
-            self.seam_totals[k] = self.seam_totals.get(k, 0) + v
-        return runs
-
-    def leg_simulate(self):
-        n_seeds = self.args.seeds
-        self.seam_pkg_hits: dict = {}
-        self.seam_totals: dict = {}
-        t0 = time.monotonic()
-        plans = self.make_plans(n_seeds)
-        runs = self.run_plans(plans, "sim")
-        wall = time.monotonic() - t0
-        by_seed = {r["seed"]: r for r in runs}
-        expected = {p.seed for ps in plans.values() for p in ps}
-        for s in sorted(expected - set(by_seed)):
-            self.errors.append(f"simulated run {s} produced no record")
-        bad = []
-        for r in runs:
-            if r.get("error"):
-                self.errors.append(f"simulated run {r['seed']}: {r['error']}")
-            elif r["mismatches"]:
-                bad.append(r)
-
-        # determinism self-test: a sample of seeds again, in another process, another position,
-        # another hash seed / XLA setting -- the event log digest must be identical
-        good = [r for r in runs if not r.get("error")]
-        sample = sorted(good, key=lambda r: hashlib.sha256(str(r["seed"]).encode()).hexdigest())[: self.args.replay_sample]
-        from sim import Plan
-
-        again = {False: [], True: []}
-        for r in sample:
-            again[r["variant"]["x64"]].append(Plan.from_json(r["plan"]))
-        again = {k: list(reversed(v)) for k, v in again.items()}
-        reruns = self.run_plans(again, "det", shift=3) if sample else []
-        diverged = []
-        for rr in reruns:
-            first = by_seed[rr["seed"]]
-            if rr.get("error"):
-                self.errors.append(f"determinism re-run {rr['seed']}: {rr['error']}")
-            elif rr["event_digest"] != first["event_digest"]:
-                diverged.append((rr["seed"], first["variant"], rr["variant"]))
-        for s, v1, v2 in diverged:
-            self.errors.append(f"replay divergence: seed {s} gave different event logs under {v1} and {v2}")
-
-        # aggregate reach
-        agg = {"line_events": 0, "decisions": 0, "switches": 0, "line_switches": 0, "ops_completed": 0, "ops_crashed": 0, "ops_raised": 0}
-        faults: dict = {}
-        ops_seen = {False: set(), True: set()}
-        digests = set()
-        sim_seconds = 0.0
-        for r in good:
-            for k in agg:
-                agg[k] += r["stats"][k]
-            for k, v in r["stats"]["faults"].items():
-                faults[k] = faults.get(k, 0) + v
-            ops_seen[r["variant"]["x64"]].update(r["ops"])
-            digests.add(r["event_digest"])
-            sim_seconds += abs(r.get("sim_clock", 1.9e9) - 1.9e9)
-        self.report["simulation"] = {
-            "runs": len(good),
-            "seeds": [self.args.seed_base, self.args.seed_base + n_seeds - 1],
-            "wall_s": round(wall, 1),
-            "runs_per_hour": round(len(good) / wall * 3600) if wall > 0 else None,
-            "distinct_event_logs": len(digests),
-            "reach": agg,
-            "faults_injected": faults,
-            "ops_exercised_float32": len(ops_seen[False]),
-            "ops_exercised_float64": len(ops_seen[True]),
-            "ops_in_catalogue": len(self.keys),
-            "runs_with_mismatch": len(bad),
-            "determinism_reruns": len(reruns),
-            "determinism_divergences": len(diverged),
-            "worker_variants": "x64 {0,1} x PYTHONHASHSEED {0,1,4242,random} x XLA {default, single-thread}",
-            "simulated_wall_clock_excursion_s": sim_seconds,
-            "real_code": "exponax (whole package, unmodified), jax, equinox, XLA CPU",
-            "stubs": "time.* served by the simulated clock; every other seam passes through after being counted",
-        }
-        self.report["seams"] = {"hits_total": self.seam_totals, "hits_from_package": self.seam_pkg_hits}
-        for k, v in sorted(self.seam_pkg_hits.items()):
-            self.changed.append(f"seam package code touched an ambient seam: {k} ({v}x)")
-        if bad:
-            self.handle_mismatches(bad)
-
-    # ---------------------------------------------------------------- minimisation and replay files
-    def isolated_reference(self, x64, keys):
-        """One fresh interpreter per operation: a reference no history can have polluted."""
-        env = worker_env(self.repo, x64=x64, hashseed="0", single_thread=False)
-        table = {}
-        keys = sorted(set(keys))
-        with cf.ThreadPoolExecutor(self.jobs) as ex:
-            futs = [ex.submit(run_worker, "ref", {"ops": [k]}, env, self.workdir, f"iso-{int(x64)}-{i}", 900) for i, k in enumerate(keys)]
-            for fut in futs:
-                res = fut.result()
-                if "worker_error" in res:
-                    self.errors.append(f"isolated reference {res['tag']}: {res['worker_error']}")
-                    continue
-                table.update(res["table"])
-        return table
-
-    def _try_plan(self, plan, variant, tag, reference=None):
-        """Run one plan in a fresh process; returns run record (or None on harness trouble)."""
-        x64 = variant["x64"]
-        needed = {k for t in plan.threads for k in t}
-        ref = reference if reference is not None else self.reference[x64]
-        spec = {"plans": [plan.to_json()], "reference": {k: ref[k] for k in needed if k in ref}, "wall_cap": self.args.run_wall_cap, "record_trace": True, "cold_start": True}
-        res = run_worker("sim", spec, worker_env(self.repo, **variant), self.workdir, tag, self.args.worker_timeout)
-        if "worker_error" in res or not res["runs"] or res["runs"][0].get("error"):
-            return None
-        return res["runs"][0]
-
-    def minimise(self, run):
-        from sim import Plan
-
-        variant = run["variant"]
-        x64 = variant["x64"]
-        plan = Plan.from_json(run["plan"])
-        attempts = [0]
-        # Judge every candidate against per-operation isolated references: the chunked reference of
-        # leg_reference may itself be polluted by the very history-dependence we are minimising.
-        suspects = {m["op"] for m in run["mismatches"]}
-        chunk_prefixes = []
-        for ch in getattr(self, "ref_chunks", []):
-            hit = [i for i, k in enumerate(ch) if k in suspects]
-            if hit:
-                chunk_prefixes.append(ch[: hit[0] + 1])
-        iso = self.isolated_reference(x64, [k for t in plan.threads for k in t] + [k for p in chunk_prefixes for k in p])
-        tgt = [None]
-
-        def fails(p, tag):
-            attempts[0] += 1
-            r = self._try_plan(p, variant, f"min-{run['seed']}-{tag}-{attempts[0]}", reference=iso)
-            if not r or not r["mismatches"]:
-                return None
-            if tgt[0] is None:
-                tgt[0] = r["mismatches"][0]["op"]
-            return r if any(m["op"] == tgt[0] for m in r["mismatches"]) else None
-
-        best = fails(plan, "orig")
-        if best is None:
-            # the simulated run is clean against isolated references, so the *reference process* was
-            # the polluted history: minimise its operation sequence instead
-            for pre in sorted(chunk_prefixes, key=len):
-                cand = Plan(plan.seed, [list(pre)], 0.0, 0.0, 0.0, [], 0, "reference-chunk order")
-                best = fails(cand, "refchunk")
-                if best:
-                    plan = cand
-                    run = dict(run, ops=list(pre))
-                    break
-        if best is None:
-            return plan, run, attempts[0], False  # did not reproduce in a fresh process
-        target = tgt[0]
-        # 1. simplest explanations first: no faults, no line pre-emption, one thread in executed order
-        executed = run["ops"]
-        for name, cand in (
-            ("single-thread-no-faults", Plan(plan.seed, [list(executed)], 0.0, 0.0, 0.0, [], 0, "serialised")),
-            ("no-faults", Plan(plan.seed, plan.threads, plan.p_line, 0.0, 0.0, [], 0, "faults off")),
-            ("no-line-preemption", Plan(plan.seed, plan.threads, 0.0, plan.p_fault, 0.0, [f for f in plan.faults if f != "crash"], 0, "op-boundary scheduling only")),
-        ):
-            r = fails(cand, name)
-            if r:
-                plan, best = cand, r
-                break
-        # 2. ddmin over the operations (flattened, thread assignment kept)
-        flat = [(ti, k) for ti, t in enumerate(plan.threads) for k in t]
-
-        def rebuild(items):
-            th = [[] for _ in plan.threads]
-            for ti, k in items:
-                th[ti].append(k)
-            return Plan(plan.seed, [t for t in th if t] or [[]], plan.p_line, plan.p_fault, plan.p_crash, plan.faults, plan.max_crashes, plan.note)
-
-        n = 2
-        while len(flat) >= 2 and attempts[0] < self.args.min_budget:
-            size = max(1, len(flat) // n)
-            subsets = [flat[i : i + size] for i in range(0, len(flat), size)]
-            cands = [[x for j, s in enumerate(subsets) if j != i for x in s] for i in range(len(subsets))]
-            cands = [c for c in cands if any(k == target for _, k in c)]
-            found = None
-            with cf.ThreadPoolExecutor(min(self.jobs, max(1, len(cands)))) as ex:
-                futs = [(c, ex.submit(fails, rebuild(c), f"dd{n}")) for c in cands]
-                for c, fut in futs:
-                    r = fut.result()
-                    if r and found is None:
-                        found = (c, r)
-            if found:
-                flat, best = found
-                plan = rebuild(flat)
-                n = max(n - 1, 2)
-            elif n >= len(flat):
-                break
-            else:
-                n = min(len(flat), n * 2)
-        return plan, best, attempts[0], True
-
-    def handle_mismatches(self, bad):
-        os.makedirs(self.args.replay_dir, exist_ok=True)
-        affected = set()
-        for r in bad:
-            for m in r["mismatches"]:
-                affected.add(m["op"])
-        exports = sorted({e for k in affected for e in self.ops[k]["exports"]})
-        first = sorted(bad, key=lambda r: (sum(len(t) for t in r["plan"]["threads"]), r["seed"]))[0]
-        plan, best, attempts, reproduced = self.minimise(first)
-        path = os.path.join(self.args.replay_dir, f"seed-{first['seed']}.json")
-        with open(path, "w") as f:
-            json.dump(
-                {
-                    "kind": "premise-audit-replay",
-                    "original_seed": first["seed"],
-                    "variant": first["variant"],
-                    "plan": plan.to_json(),
-                    "expected": {"event_digest": best.get("event_digest"), "mismatching_ops": sorted({m["op"] for m in best.get("mismatches", [])})},
-                    "trace": best.get("trace"),
-                    "minimisation_attempts": attempts,
-                    "reproduced_in_fresh_process": reproduced,
-                },
-                f,
-                indent=1,
-            )
-        self.report["mismatch"] = {
-            "runs": len(bad),
-            "seeds": sorted(r["seed"] for r in bad)[:50],
-            "operations": sorted(affected)[:50],
-            "exports": exports,
-            "verdicts_to_rederive": properties_for(exports),
-            "replay_file": path,
-            "minimised_ops": sum(len(t) for t in plan.threads),
-            "minimised_from_ops": sum(len(t) for t in first["plan"]["threads"]),
-        }
-        self.changed.append(
-            f"simulate results depend on history/schedule/ambient state: {len(affected)} operation(s) differ from their isolated reference in {len(bad)} run(s), "
-            f"e.g. {sorted(affected)[0]}; API {exports[:4]}; verdicts to re-derive {properties_for(exports)}; seed={first['seed']} replay={path}"
-        )
-
-    # ---------------------------------------------------------------- replay of a recorded file
-    def replay(self, path):
-        from sim import Plan
-
-        rec = json.load(open(path))
-        if not self.load_catalogue():
-            return 2
-        plan = Plan.from_json(rec["plan"])
-        variant = rec["variant"]
-        needed = sorted({k for t in plan.threads for k in t})
-        env = worker_env(self.repo, x64=variant["x64"], hashseed="0", single_thread=False)
-        # isolated reference: one fresh interpreter per operation
-        self.reference = {variant["x64"]: {}}
-        with cf.ThreadPoolExecutor(self.jobs) as ex:
-            futs = [ex.submit(run_worker, "ref", {"ops": [k]}, env, self.workdir, f"rref-{i}", 600) for i, k in enumerate(needed)]
-            for fut in futs:
-                res = fut.result()
-                if "worker_error" in res:
-                    print(f"AUDIT-ERROR reference for replay: {res['worker_error']}")
-                    return 2
-                self.reference[variant["x64"]].update(res["table"])
-        r = self._try_plan(plan, variant, "replay")
+def run_replay(args) -> int:
+    ex = Explorer(repo=args.repo, jobs=args.jobs, seeds=0, seed_base=0, label="premise")
+    try:
+        r, rec = ex.replay(args.replay)
         if r is None:
-            print("AUDIT-ERROR replay run failed in the harness")
+            print("AUDIT-ERROR replay could not be executed: " + "; ".join(ex.errors)[:500])
             return 2
         got = sorted({m["op"] for m in r["mismatches"]})
         same_log = r["event_digest"] == rec["expected"]["event_digest"]
-        print(f"replay seed={plan.seed} ops={sum(len(t) for t in plan.threads)} event_digest={'identical' if same_log else 'DIFFERENT'} mismatching_ops={got}")
-        if got and same_log:
-            print(f"REPLAY-REPRODUCED {path}")
-            return 3
+        print(f"replay seed={rec['plan']['seed']} ops={sum(len(t) for t in rec['plan']['threads'])} event_digest={'identical' if same_log else 'DIFFERENT'} mismatching_ops={got}")
+        for m in r["mismatches"][:5]:
+            print(f"   {m['op']}: {m['severity']}: {m['why']}")
         if got:
-            print(f"REPLAY-REPRODUCED-WITH-DIFFERENT-SCHEDULE {path}")
+            print(("REPLAY-REPRODUCED " if same_log else "REPLAY-REPRODUCED-WITH-DIFFERENT-SCHEDULE ") + args.replay)
             return 3
         print("REPLAY-CLEAN no operation differs from its isolated reference")
         return 0
-
-    # ---------------------------------------------------------------- main
-    def run(self):
-        t0 = time.monotonic()
-        self.leg_static()
-        if self.args.leg in ("all", "dynamic"):
-            if self.load_catalogue():
-                self.leg_reference()
-                if not self.errors:
-                    self.leg_simulate()
-        self.report["wall_s"] = round(time.monotonic() - t0, 1)
-        self.report["premise_changed"] = self.changed
-        self.report["audit_errors"] = self.errors
-        report_path = self.args.report or os.path.join(HERE, "out", f"report-{self.args.tier}.json")
-        os.makedirs(os.path.dirname(report_path), exist_ok=True)
-        with open(report_path, "w") as f:
-            json.dump(self.report, f, indent=1, sort_keys=True)
-        sim = self.report.get("simulation", {})
-        print(
-            f"premise-audit tier={self.args.tier} static_findings={len(self.report['static']['findings'])} "
-            f"ops={self.report.get('catalogue', {}).get('operations')} runs={sim.get('runs')} distinct_event_logs={sim.get('distinct_event_logs')} "
-            f"line_events={sim.get('reach', {}).get('line_events')} line_switches={sim.get('reach', {}).get('line_switches')} faults={sim.get('faults_injected')} "
-            f"seam_hits_from_package={sum(self.report.get('seams', {}).get('hits_from_package', {}).values())} "
-            f"determinism={sim.get('determinism_reruns')}re-runs/{sim.get('determinism_divergences')}divergent wall={self.report['wall_s']}s"
-        )
-        if self.errors:
-            for e in self.errors:
-                print("AUDIT-ERROR " + e.replace("\n", "\n    "))
-        for c in self.changed:
-            print("PREMISE-CHANGED " + c)
-        if self.changed:
-            return 3
-        if self.errors:
-            return 2
-        print("PREMISE-HOLDS no schedule/clock/I-O/entropy/shared-state surface found; every simulated run reproduced the isolated reference bit for bit")
-        return 0
+    finally:
+        ex.cleanup()
 
 
 def main():
@@ -648,7 +190,7 @@ def main():
     ap.add_argument("--seed-base", type=int, default=int(os.environ.get("VERIF_SEED", "0")))
     ap.add_argument("--replay-sample", type=int, default=None)
     ap.add_argument("--no-cover", dest="cover", action="store_false")
-    ap.add_argument("--cold-start", action="store_true", help="clear every JAX/equinox cache before each run (slower; schedules are cache-independent, see DESIGN.md)")
+    ap.add_argument("--cold-start", action="store_true", help="clear every JAX/equinox cache before each run (slower; schedules are cache-independent)")
     ap.add_argument("--run-wall-cap", type=float, default=900.0)
     ap.add_argument("--worker-timeout", type=float, default=3000.0)
     ap.add_argument("--min-budget", type=int, default=60)
@@ -665,13 +207,7 @@ def main():
         import selfcheck
 
         sys.exit(selfcheck.main(args))
-    audit = Audit(args)
-    try:
-        if args.replay:
-            sys.exit(audit.replay(args.replay))
-        sys.exit(audit.run())
-    finally:
-        audit.cleanup()
+    sys.exit(run_replay(args) if args.replay else run_audit(args))
 
 
 if __name__ == "__main__":
